@@ -12,6 +12,10 @@ import (
 )
 
 func main() {
+	if len(os.Args) > 1 && os.Args[1] == "probes" {
+		runProbes()
+		return
+	}
 	seed, _ := strconv.Atoi(os.Args[1])
 	n, _ := strconv.Atoi(os.Args[2])
 	r := lib.NewRNG(uint64(seed))
